@@ -16,7 +16,7 @@ exactly representable), small integer multiples of a subnormal unit (2^-149 / 2^
 for the product operations: every term and partial sum is an exactly representable subnormal-range value) or at most one \
 term is non-zero (one-hot vectors at every index) the result must equal \
 the exact value. Value classes: uniform-exponent random, wide-exponent random, same-sign, cancelling, small \
-integers, subnormal integers, one-hot, sparse; plus twelve lengths between 1023 and 10007 (exact data, uniform data, one-hot first/middle/last). distinct = hash set over (routine, DIMS, mask, a, b); non-trivial = length > 0 and \
+integers, subnormal integers, one-hot, sparse; plus nineteen lengths between 128 and 10007 (the usual embedding sizes, neighbours of powers of two) (exact data, uniform data, one-hot first/middle/last). distinct = hash set over (routine, DIMS, mask, a, b); non-trivial = length > 0 and \
 some term non-zero.";
 
 fn erange<T: Elem>() -> (i32, i32) {
